@@ -188,11 +188,8 @@ class Exporter:
 
         if options.to_measure is not None and options.to_measure < len(document.measure_start_tree_stages):
 
-            if options.to_measure < len(document.measure_start_tree_stages) - 1:
-                to_stage = document.measure_start_tree_stages[
-                    options.to_measure]  # take the barlines from the next coming measure
-            else:
-                to_stage = len(document.tree.stages) - 1  # all stages
+            to_stage = document.measure_start_tree_stages[
+                options.to_measure]  # take the barlines from the next coming measure
         else:
             to_stage = len(document.tree.stages) - 1  # all stages
 
